@@ -581,7 +581,12 @@ class InProtocolBase(ProtocolMixin):
         return self.duration_from_unicode(cls, string)
 
     def boolean_from_bytes(self, cls, string):
-        return string.lower() in ('true', '1')
+        value = string.strip().lower()
+        if value in ('true', '1', b'true', b'1'):
+            return True
+        if value in ('false', '0', b'false', b'0'):
+            return False
+        raise ValidationError(string)
 
     def byte_array_from_bytes(self, cls, value, suggested_encoding=None):
         encoding = self.get_cls_attrs(cls).encoding
